@@ -146,7 +146,14 @@ class Task (BaseTask):
     g = self.target(*self.args, **self.kwargs)
     x = g.send(None)
     while True:
-      x = g.send((yield x))
+      try:
+        v = yield x
+      except Exception:
+        # Something (e.g., a failed subtask) threw into us; it's meant for
+        # the target generator, not for this wrapper.
+        x = g.throw(*sys.exc_info())
+      else:
+        x = g.send(v)
 
   def __str__ (self):
     return "<%s %s tid:%s>" % (type(self).__name__,
